@@ -120,6 +120,7 @@ def hits_from(bads, items):
         for bad in b["bad"]:
             for e in bad["errs"]:
                 hits.append({"why": e["why"], "feats": pb.feats_of(prog), "size": len(json.dumps(prog)),
+                             "sampled": it.get("kind") == "model-predicts-no-failure",
                              "what": f"{bad['path']}: {e['why']} ({e['at']})",
                              "replay": pb.replay_doc("C12", "program", {"program": prog, "path": bad["path"], "why": e["why"], "at": e["at"]})})
     return hits
